@@ -39,6 +39,7 @@ func init() {
 		return nil, nil
 	})
 	reg("ls", cmdLs)
+	reg("ingest_refresh", cmdIngestRefresh)
 	reg("shutdown_flush", func(c Cmd) (interface{}, error) {
 		writer.ForcedFlushToSegfile()
 		return nil, nil
@@ -96,6 +97,31 @@ func cmdBulk(c Cmd) (interface{}, error) {
 		r["herr"] = err.Error()
 	}
 	return r, nil
+}
+
+// ingest_refresh{org, index, docs:[json text,...]}: the ingest path that flushes inside the call (flush=true: single
+// document PUT/POST with ?refresh, OTLP logs/traces with shouldFlush) - ProcessIndexRequestPle is what those handlers call
+func cmdIngestRefresh(c Cmd) (interface{}, error) {
+	docs, _ := c["docs"].([]interface{})
+	index := c.str("index")
+	tsNow := uint64(time.Now().UnixMilli())
+	tsKey := config.GetTimeStampKey()
+	var stackbuf [4096]byte
+	ples := make([]*writer.ParsedLogEvent, 0, len(docs))
+	for _, d := range docs {
+		txt, _ := d.(string)
+		ple, err := writer.GetNewPLE([]byte(txt), tsNow, index, &tsKey, stackbuf[:])
+		if err != nil {
+			return nil, fmt.Errorf("GetNewPLE: %v", err)
+		}
+		ples = append(ples, ple)
+	}
+	err := eswriter.ProcessIndexRequestPle(tsNow, index, true, map[string]string{}, c.i64("org", 0), 0,
+		map[string]string{}, map[uint64]string{}, stackbuf[:], ples)
+	if err != nil {
+		return map[string]interface{}{"herr": err.Error()}, nil
+	}
+	return map[string]interface{}{"ingested": len(ples)}, nil
 }
 
 func cmdFlush(c Cmd) (interface{}, error) {
